@@ -105,13 +105,16 @@ type PartyOpts struct {
 	Frag       int  // fragment size, 0 = off
 	NoErrH     bool // leave the error-message handler unset
 	NoHandlers bool
+	SysRand    bool // leave Conversation.Rand unset: the library then uses the operating system's generator
 }
 
 // NewParty builds a conversation with tracked randomness and recorders.
 func NewParty(o PartyOpts) *Party {
 	p := &Party{Name: o.Name, R: NewRand(o.Seed), Pol: o.Pol, KeyI: o.KeyI}
 	c := &otr3.Conversation{}
-	c.Rand = p.R
+	if !o.SysRand {
+		c.Rand = p.R
+	}
 	ApplyPolicies(c, o.Pol)
 	if o.KeyI >= 0 {
 		p.Key = PoolKey(o.KeyI)
